@@ -74,10 +74,11 @@ class SimExecutor(object):
     which chains share a (simulated) worker - i.e. run with the memo caches another chain left behind - and the
     completion order.  One simulated worker = one set of module-level memo caches; a fresh worker starts with them empty."""
 
-    def __init__(self, schedule, stats):
+    def __init__(self, schedule, stats, hist=None):
         self.schedule = schedule  # dict(start_order=[...], worker_of=[...], finish_order=[...], fail_chain=None)
         self.futures = []
         self.stats = stats
+        self.hist = hist
 
     def __call__(self, max_workers=None, mp_context=None):
         self.max_workers = max_workers
@@ -101,20 +102,27 @@ class SimExecutor(object):
         sch = self.schedule
         start = [i for i in sch.get("start_order", range(k)) if i < k] or list(range(k))
         worker_of = sch.get("worker_of") or list(range(k))
-        last_worker = None
+        groups = []  # [(worker, [chains in the order they start on it])], workers in order of first use
         for i in start:
             w = worker_of[i] if i < len(worker_of) else i
-            if w != last_worker:
-                bridge.clear_caches()  # another (fresh) worker: starts with empty memo caches
+            for g in groups:
+                if g[0] == w:
+                    g[1].append(i)
+                    self.stats["worker_reused"] = self.stats.get("worker_reused", 0) + 1  # same worker: module state stays warm
+                    break
             else:
-                self.stats["worker_reused"] = self.stats.get("worker_reused", 0) + 1  # same worker: caches stay warm
-            last_worker = w
-            if sch.get("fail_chain") == i:
-                futs[i]._exc = WorkerFailure("simulated worker died while running chain %d" % i)
-                futs[i].done = True
-                self.stats["worker_failed"] = self.stats.get("worker_failed", 0) + 1
+                groups.append((w, [i]))
+        import threading
+
+        use_fork = hasattr(os, "fork") and threading.active_count() == 1 and not sch.get("in_process")
+        for w, chain_list in groups:
+            if use_fork:
+                self._run_group_forked(futs, chain_list, sch)
             else:
-                futs[i].run()
+                bridge.clear_caches()  # a fresh worker starts with empty memo caches (in-process fallback)
+                for i in chain_list:
+                    self._run_one(futs, i, sch)
+        self.stats["workers_forked" if use_fork else "workers_in_process"] = self.stats.get("workers_forked" if use_fork else "workers_in_process", 0) + len(groups)
         fin = [i for i in sch.get("finish_order", range(k)) if i < k] or list(range(k))
         if fin != sorted(fin):
             self.stats["finished_out_of_order"] = self.stats.get("finished_out_of_order", 0) + 1
@@ -122,6 +130,89 @@ class SimExecutor(object):
             self.stats["started_out_of_order"] = self.stats.get("started_out_of_order", 0) + 1
         for i in fin:
             yield futs[i]
+
+    def _run_one(self, futs, i, sch):
+        if sch.get("fail_chain") == i:
+            futs[i]._exc = WorkerFailure("simulated worker died while running chain %d" % i)
+            futs[i].done = True
+            self.stats["worker_failed"] = self.stats.get("worker_failed", 0) + 1
+        else:
+            futs[i].run()
+
+    def _run_group_forked(self, futs, chain_list, sch):
+        """One simulated worker = one forked child of the (warm, cache-cleared) simulator process: real address-space
+        isolation between workers; chains scheduled on the same worker run one after the other inside it."""
+        hist = self.hist
+        rfd, wfd = os.pipe()
+        bridge.clear_caches()
+        pid = os.fork()
+        if pid == 0:
+            code = 0
+            try:
+                os.close(rfd)
+                if hist is not None:
+                    hist["conc_calls"], hist["appended"], hist["post_burnin"] = [], [], []
+                    hist["iter_calls"] = {"burnin": 0, "main": 0}
+                    hist["main_iters_by_chain"] = {}
+                out = []
+                for i in chain_list:
+                    if sch.get("fail_chain") == i:
+                        out.append((i, None, ("WorkerFailure", "simulated worker died while running chain %d" % i, ""), True))
+                        continue
+                    futs[i].run()
+                    e = futs[i]._exc
+                    out.append((i, futs[i]._res, None if e is None else (type(e).__name__, str(e)[:300], innermost_phyclone_frame(e)), False))
+                delta = None if hist is None else {k: hist.get(k) for k in ("conc_calls", "appended", "post_burnin", "iter_calls", "main_iters_by_chain")}
+                payload = pickle.dumps((out, delta), protocol=pickle.HIGHEST_PROTOCOL)
+                with os.fdopen(wfd, "wb") as fh:
+                    fh.write(payload)
+            except BaseException:
+                code = 1
+            finally:
+                os._exit(code)
+        os.close(wfd)
+        chunks = []
+        with os.fdopen(rfd, "rb") as fh:
+            while True:
+                b = fh.read(1 << 20)
+                if not b:
+                    break
+                chunks.append(b)
+        os.waitpid(pid, 0)
+        data = b"".join(chunks)
+        if not data:
+            for i in chain_list:
+                futs[i]._exc = ChainError("SimulatedWorkerCrash", "the forked worker produced no result", "")
+                futs[i].done = True
+            return
+        out, delta = pickle.loads(data)
+        for i, res, err, failed in out:
+            if failed:
+                futs[i]._exc = WorkerFailure(err[1])
+                self.stats["worker_failed"] = self.stats.get("worker_failed", 0) + 1
+            elif err is not None:
+                futs[i]._exc = ChainError(*err)
+            else:
+                futs[i]._res = res
+            futs[i].done = True
+        if hist is not None and delta is not None:
+            hist["conc_calls"] += delta["conc_calls"]
+            hist["appended"] += delta["appended"]
+            hist["post_burnin"] += delta["post_burnin"]
+            for kk, v in delta["iter_calls"].items():
+                hist["iter_calls"][kk] = hist["iter_calls"].get(kk, 0) + v
+            hist.setdefault("main_iters_by_chain", {}).update(delta["main_iters_by_chain"])
+
+
+class ChainError(Exception):
+    """An exception raised inside a simulated worker, carried across the process boundary with its type name and the
+    innermost phyclone frame (a real pool also loses the traceback object)."""
+
+    def __init__(self, type_name, msg, where):
+        super().__init__("%s: %s" % (type_name, msg))
+        self.type_name = type_name
+        self.msg = msg
+        self.where = where
 
 
 class ProcessKilled(BaseException):
@@ -399,7 +490,7 @@ def run_pipeline(spec):
     try:
         in_file, cluster_file = write_inputs(d, spec["inputs"])
         out_file = os.path.join(d, "trace.pkl.gz")
-        ex = SimExecutor(spec.get("schedule") or {}, hist["stats"])
+        ex = SimExecutor(spec.get("schedule") or {}, hist["stats"], hist)
 
         def make_timer():
             c = SimClock(spec.get("deltas") or [0.0])
@@ -445,10 +536,11 @@ def run_pipeline(spec):
                 t = orig_burn(*a, **k)
             finally:
                 phase["name"] = None
+            chain = a[9] if len(a) > 9 else k.get("chain_num")
             try:
-                hist["post_burnin"].append(models.canon(bridge.to_forest(t)))
+                hist["post_burnin"].append((chain, models.canon(bridge.to_forest(t))))
             except Exception:
-                hist["post_burnin"].append(None)
+                hist["post_burnin"].append((chain, None))
             return t
 
         def w_main(*a, **k):
@@ -537,6 +629,8 @@ def run_pipeline(spec):
                     prun.run(**kwargs)
         except ProcessKilled as e:
             hist["exception"] = {"type": "ProcessKilled", "where": "", "msg": str(e)}
+        except ChainError as e:
+            hist["exception"] = {"type": e.type_name, "where": e.where, "msg": e.msg}
         except Exception as e:
             hist["exception"] = {"type": type(e).__name__, "where": innermost_phyclone_frame(e), "msg": str(e)[:300]}
         hist["image"] = fs.images.get(out_file)
